@@ -20,7 +20,10 @@ fn spawn() -> (Child, ChildStdin, Receiver<Option<String>>) {
         .arg("worker")
         .stdin(Stdio::piped())
         .stdout(Stdio::piped())
-        .stderr(Stdio::null())
+        .stderr(match std::env::var("HS_WORKER_STDERR") {
+            Ok(path) => std::fs::OpenOptions::new().create(true).append(true).open(path).map(Stdio::from).unwrap_or_else(|_| Stdio::null()),
+            Err(_) => Stdio::null(),
+        })
         .spawn()
         .expect("spawn worker");
     let stdin = child.stdin.take().unwrap();
